@@ -91,8 +91,17 @@ func (m *Memory) IndexAll(ctx context.Context, fetcher content.Fetcher, node oci
 			return err
 		}
 		if len(successors) > 0 {
-			// traverse and index successors
-			return syncutil.Go(ctx, nil, fn, successors...)
+			// traverse and index successors; the annotations and the artifact
+			// type embedded in the parent describe the reference, they are
+			// not the annotations and the artifact type of the successor's
+			// own content, which is what a predecessor descriptor reports
+			plain := make([]ocispec.Descriptor, len(successors))
+			for i, successor := range successors {
+				successor.Annotations = nil
+				successor.ArtifactType = ""
+				plain[i] = successor
+			}
+			return syncutil.Go(ctx, nil, fn, plain...)
 		}
 		return nil
 	}
